@@ -5,6 +5,7 @@ models and prints one observation line per action.  Imports model files only.
 import DeadpoolVerif.Model.Managed
 import DeadpoolVerif.Model.Unmanaged
 import DeadpoolVerif.Model.PgConfig
+import DeadpoolVerif.Model.RedisConfig
 
 open DeadpoolVerif
 
@@ -268,6 +269,199 @@ def recycling (ws : List String) : String :=
 
 end PgDrv
 
+namespace RdDrv
+open Rd
+
+def hexVal (c : Char) : Nat :=
+  if c.isDigit then c.toNat - '0'.toNat else if 'a' ≤ c ∧ c ≤ 'f' then c.toNat - 'a'.toNat + 10 else 0
+
+/-- hex → string, byte-wise (only ASCII contents are ever inspected) -/
+def unhex (s : String) : String :=
+  if s == "e" then "" else
+  let rec go : List Char → List Char
+    | a :: b :: rest => Char.ofNat (hexVal a * 16 + hexVal b) :: go rest
+    | _ => []
+  String.ofList (go s.toList)
+
+def hexDigit (n : Nat) : Char := if n < 10 then Char.ofNat (n + '0'.toNat) else Char.ofNat (n - 10 + 'a'.toNat)
+
+def hex (s : String) : String :=
+  if s.isEmpty then "e" else
+  String.ofList (s.toUTF8.toList.flatMap fun b => [hexDigit (b.toNat / 16), hexDigit (b.toNat % 16)])
+
+def optList (s : String) : Option (List String) :=
+  if s == "-" then none
+  else some (((s.drop 1).dropEnd 1).toString.splitOn "," |>.filter (· ≠ ""))
+
+def showServer : Server → String
+  | .named n => toString n
+  | .dflt => "D"
+
+def insertSorted (x : String) : List String → List String
+  | [] => [x]
+  | y :: ys => if x < y then x :: y :: ys else if x == y then y :: ys else y :: insertSorted x ys
+
+def cfg (ws : List String) : String :=
+  let kvs := ws.map kv
+  let g (k : String) := lookup kvs k "-"
+  let server (t : String) : Option Server := if t == "D" then some .dflt else t.toNat?.map .named
+  let urls := (optList (g "u")).map fun l => l.map server
+  let conns := (optList (g "c")).map fun l => l.filterMap server
+  let pool := if g "pool" == "-" then none else (g "pool").toNat?
+  match builder urls conns (g "au" == "1") (g "ac" == "1") pool ((g "dflt").toNat?.getD 0) with
+  | .errBoth => "rdout err both"
+  | .errRedis => "rdout err redis"
+  | .ok servers m =>
+    let names := servers.foldl (fun acc s => insertSorted (showServer s) acc) []
+    if servers == [.dflt] && g "obs" == "0" then s!"rdout ok servers=unobserved max={m}"
+    else s!"rdout ok servers=[{",".intercalate names}] max={m}"
+
+def parseProto (s : String) : Option Proto :=
+  if s == "resp2" then some .resp2 else if s == "resp3" then some .resp3 else none
+def showProto : Proto → String
+  | .resp2 => "resp2"
+  | .resp3 => "resp3"
+def optTok (s : String) : Option String := if s == "-" then none else some s
+def showOpt : Option String → String
+  | none => "-"
+  | some s => s
+
+def parseRInfo (s : String) : Option RInfo :=
+  match s.splitOn ":" with
+  | [db, u, p, pr] =>
+    match db.toInt?, parseProto pr with
+    | some d, some pr => some { db := d, username := optTok u, password := optTok p, protocol := pr }
+    | _, _ => none
+  | _ => none
+def showRInfo (r : RInfo) : String :=
+  s!"{r.db}:{showOpt r.username}:{showOpt r.password}:{showProto r.protocol}"
+
+def parseAddr (s : String) : Option Addr :=
+  match s.splitOn ":" with
+  | ["tcp", h, p] => p.toNat?.map fun p => .tcp h p
+  | ["tls", h, p, i] => p.toNat?.map fun p => .tcpTls h p (i == "1")
+  | ["unix", p] => some (.unix p)
+  | _ => none
+def showAddr : Addr → String
+  | .tcp h p => s!"tcp:{h}:{p}"
+  | .tcpTls h p i => s!"tls:{h}:{p}:{if i then 1 else 0}"
+  | .unix p => s!"unix:{p}"
+def parseRAddr (s : String) : Option RAddr :=
+  match s.splitOn ":" with
+  | ["tcp", h, p] => p.toNat?.map fun p => .tcp h p
+  | ["tls", h, p, i, t] => p.toNat?.map fun p => .tcpTls h p (i == "1") (t == "1")
+  | ["unix", p] => some (.unix p)
+  | _ => none
+def showRAddr : RAddr → String
+  | .tcp h p => s!"tcp:{h}:{p}"
+  | .tcpTls h p i t => s!"tls:{h}:{p}:{if i then 1 else 0}:{if t then 1 else 0}"
+  | .unix p => s!"unix:{p}"
+
+def parseTls (s : String) : Option (Option TlsMode) :=
+  if s == "-" then some none else if s == "secure" then some (some .secure)
+  else if s == "insecure" then some (some .insecure) else none
+def showTls : Option TlsMode → String
+  | none => "-"
+  | some .secure => "secure"
+  | some .insecure => "insecure"
+def showNode (n : NodeInfo) : String :=
+  s!"{showTls n.tlsMode} {match n.redis with | none => "-" | some r => showRInfo r}"
+
+def conv (ws : List String) : String :=
+  match ws with
+  | ["info", a, r] =>
+    match parseAddr a, parseRInfo r with
+    | some a, some r =>
+      let i : Info := { addr := a, redis := r }
+      let there := i.toRedis
+      let back := there.toOurs
+      s!"rdout conv there={showRAddr there.addr} {showRInfo there.redis} back={showAddr back.addr} {showRInfo back.redis}"
+    | _, _ => "bad-op"
+  | ["rinfo", a, r] =>
+    match parseRAddr a, parseRInfo r with
+    | some a, some r =>
+      let i : RedisInfo := { addr := a, redis := r }
+      let there := i.toOurs
+      let back := there.toRedis
+      s!"rdout conv there={showAddr there.addr} {showRInfo there.redis} back={showRAddr back.addr} {showRInfo back.redis}"
+    | _, _ => "bad-op"
+  | ["node", t, r] =>
+    match parseTls t, (if r == "-" then some none else (parseRInfo r).map some) with
+    | some t, some r =>
+      let n : NodeInfo := { tlsMode := t, redis := r }
+      s!"rdout conv there={showNode n.conv} back={showNode n.conv.conv}"
+    | _, _ => "bad-op"
+  | ["stype", s] =>
+    -- `SentinelServerType`: both directions are the identity on the two variants
+    let st : Option ServerType := if s == "master" then some .master else if s == "replica" then some .replica else none
+    match st with
+    | some st =>
+      let sh : ServerType → String := fun | .master => "master" | .replica => "replica"
+      s!"rdout conv there={sh st} back={sh st}"
+    | none => "bad-op"
+  | _ => "bad-op"
+
+def parseDur (s : String) : Option (Option Dur) :=
+  if s == "-" then some none else
+  match s.splitOn "." with
+  | [a, b] => match a.toNat?, b.toNat? with
+    | some a, some b => some (some { secs := a, nanos := b })
+    | _, _ => none
+  | _ => none
+def showDur : Option Dur → String
+  | none => "-"
+  | some d => s!"{d.secs}.{d.nanos}"
+def showPc (p : PoolConfig) : String :=
+  s!"{p.maxSize} {showDur p.timeouts.wait} {showDur p.timeouts.create} {showDur p.timeouts.recycle} " ++
+  (match p.queueMode with | .fifo => "fifo" | .lifo => "lifo")
+def showBack : Option PoolConfig → String
+  | none => "error"
+  | some p => showPc p
+
+/-- the prefix syntax of document trees: `N`, `n<digits>`, `s<hex>`, `{ key tree … }` -/
+partial def parseTree : List String → Option (Tree × List String)
+  | "N" :: rest => some (.null, rest)
+  | "{" :: rest =>
+    let rec fields (ws : List String) (acc : List (String × Tree)) : Option (Tree × List String) :=
+      match ws with
+      | "}" :: rest => some (.obj acc.reverse, rest)
+      | k :: rest =>
+        match parseTree rest with
+        | some (t, rest') => fields rest' ((k, t) :: acc)
+        | none => none
+      | [] => none
+    fields rest []
+  | w :: rest =>
+    if w.startsWith "n" then (w.drop 1).toString.toNat?.map fun n => (.num n, rest)
+    else if w.startsWith "s" then some (.str (unhex (w.drop 1).toString), rest)
+    else none
+  | [] => none
+
+def serde (ws : List String) : String :=
+  match ws with
+  | ["pc", m, w, c, r, q] =>
+    match m.toNat?, parseDur w, parseDur c, parseDur r with
+    | some m, some w, some c, some r =>
+      let p : PoolConfig := { maxSize := m, timeouts := { wait := w, create := c, recycle := r },
+                              queueMode := if q == "lifo" then .lifo else .fifo }
+      s!"rdout serde json={hex (render (encode p))} back={showBack (decode (encode p))}"
+    | _, _, _, _ => "bad-op"
+  | "doc" :: stringly :: rest =>
+    match parseTree rest with
+    | some (t, []) => s!"rdout serde back={showBack (decodeWith (stringly == "1") t)}"
+    | _ => "bad-op"
+  | "whole" :: _ => "rdout serde whole"
+  | _ => "bad-op"
+
+def run (ws : List String) : String :=
+  match ws with
+  | "cfg" :: _flavour :: rest => cfg rest
+  | "conv" :: rest => conv rest
+  | "serde" :: rest => serde rest
+  | _ => "bad-op"
+
+end RdDrv
+
 structure DState where
   managed : Option State := none
   unmanaged : Option U.State := none
@@ -283,6 +477,9 @@ def handle (d : DState) (line : String) : DState × Option String :=
   | "end" :: _ => (d, none)
   | "pgcfg" :: rest => (d, some (PgDrv.run rest))
   | "pgquery" :: rest => (d, some (PgDrv.recycling rest))
+  | "rdin" :: rest => (d, some (RdDrv.run rest))
+  | "rdout" :: _ => (d, none)
+  | "rdx" :: _ => (d, none)
   | ["build", w, c, r, rt] =>
     match parseTmo w, parseTmo c, parseTmo r with
     | some w, some c, some r =>
